@@ -1,7 +1,7 @@
 /* array backend lookup against its contract */
 void h_array_at(void)
 {
-  ARRAY_NO_T *in_self = malloc(sizeof(ARRAY_NO_T));
+  ARRAY_NO_T in_self_obj; in_self_obj.m_size = nondet_u64(); ARRAY_NO_T *in_self = &in_self_obj;
   size_t in_i = nondet_size_t();
   OUT_VEC_T *r = array_at(in_self, in_i);
   (void)r;
